@@ -21,7 +21,7 @@ pub mod rust_ir;
 pub mod solve;
 pub mod split;
 #[cfg(chalk_verif)]
-pub mod verif;
+pub use chalk_ir::verif;
 pub mod wf;
 
 /// Trait representing access to a database of rust types.
